@@ -215,9 +215,8 @@ inline constexpr void Conversion<Unit::HeatCapacity, Unit::HeatCapacity::InchPou
 }
 
 template <typename NumericType>
-inline const std::
-    map<Unit::HeatCapacity, std::function<void(NumericType* values, const std::size_t size)>>
-        MapOfConversionsFromStandard<Unit::HeatCapacity, NumericType>{
+inline constexpr auto MapOfConversionsFromStandard<Unit::HeatCapacity, NumericType>{
+  MakeConversionTable<Unit::HeatCapacity, NumericType>({
           {Unit::HeatCapacity::JoulePerKelvin,
            Conversions<Unit::HeatCapacity, Unit::HeatCapacity::JoulePerKelvin>::
                FromStandard<NumericType>},
@@ -230,12 +229,12 @@ inline const std::
           {Unit::HeatCapacity::InchPoundPerRankine,
            Conversions<Unit::HeatCapacity, Unit::HeatCapacity::InchPoundPerRankine>::
                FromStandard<NumericType>},
+})
 };
 
 template <typename NumericType>
-inline const std::
-    map<Unit::HeatCapacity, std::function<void(NumericType* const values, const std::size_t size)>>
-        MapOfConversionsToStandard<Unit::HeatCapacity, NumericType>{
+inline constexpr auto MapOfConversionsToStandard<Unit::HeatCapacity, NumericType>{
+  MakeConversionTable<Unit::HeatCapacity, NumericType>({
           {Unit::HeatCapacity::JoulePerKelvin,
            Conversions<Unit::HeatCapacity, Unit::HeatCapacity::JoulePerKelvin>::
                ToStandard<NumericType>},
@@ -248,6 +247,7 @@ inline const std::
           {Unit::HeatCapacity::InchPoundPerRankine,
            Conversions<Unit::HeatCapacity, Unit::HeatCapacity::InchPoundPerRankine>::
                ToStandard<NumericType>},
+})
 };
 
 }  // namespace Internal
